@@ -129,3 +129,7 @@ class Modules:
 			module = self.__modules[module_path]
 			self.__loader.unload(module.module_path)
 			del self.__modules[module_path]
+			# XXX 対象をインポートしているモジュールは、対象のシンボルとノードを参照したまま残るため、連鎖的にアンロードする
+			dependents = [in_module for in_module in self.__modules.values() if module_path in [node.import_path.tokens for node in in_module.entrypoint.imports]]
+			for dependent in dependents:
+				self.unload(dependent.path)
